@@ -130,6 +130,17 @@ Proof.
   apply procrustes_feasible_rows; assumption.
 Qed.
 
+(* idempotence: if M itself has orthonormal columns (rows), the model's output is M, whatever decomposition the oracle returned *)
+Theorem procrustes_list_fixed : ocols m n (mfun M) \/ ocols n m (fun j i => mfun M i j) ->
+  forall i j, (i < m)%nat -> (j < n)%nat -> mfun (procrustes_with Rops U V) i j = mfun M i j.
+Proof.
+  intros HMo i j Hi Hj. rewrite procrustes_entries, HM by assumption.
+  apply (procrustes_fixed m n k (mfun U) (vfun s) (mfun V) HU HV vfun_nonneg).
+  destruct HMo as [H|H]; [left | right].
+  - apply (ocols_ext m n _ (mfun M)); [intros; symmetry; apply HM; assumption | exact H].
+  - apply (ocols_ext n m _ (fun j i => mfun M i j)); [intros; symmetry; apply HM; assumption | exact H].
+Qed.
+
 (* svd_thresholding: the model's output X = U diag(soft_t(s)) V against any Z presented with a singular value decomposition *)
 Theorem svt_list_optimal t k' U' s' V' : 0 <= t ->
   ocols m k' U' -> ocols n k' (fun j l => V' l j) -> (forall l, (l < k')%nat -> 0 <= s' l) ->
@@ -157,6 +168,48 @@ Proof.
     destruct (soft1_spec t (vfun s l) Ht) as [[H E]|[[H E]|[H E]]]; rewrite E; try lra; try ring.
 Qed.
 End ListSvd.
+
+(* the thresholded singular values and the removed part: the facts the index-function theorems need *)
+Lemma soft_split_facts t k (s : list R) : 0 <= t -> length s = k -> Forall (fun x => 0 <= x) s ->
+  let sf := vfun (soft_thresholding Rops t s) in let g := fun l => vfun s l - sf l in
+  (forall l, (l < k)%nat -> vfun s l = sf l + g l) /\ (forall l, (l < k)%nat -> 0 <= g l <= t) /\
+  (forall l, (l < k)%nat -> sf l * g l = t * sf l) /\ (forall l, (l < k)%nat -> 0 <= sf l).
+Proof.
+  intros Ht Ls Hs sf g.
+  assert (Esf : forall l, (l < k)%nat -> sf l = soft1 Rops t (vfun s l)).
+  { intros l Hl. unfold sf, vfun, soft_thresholding. rewrite (nth_map_lt _ _ _ 0) by lia. reflexivity. }
+  assert (Hx : forall l, (l < k)%nat -> 0 <= vfun s l).
+  { intros l Hl. unfold vfun. rewrite Forall_forall in Hs. apply Hs, nth_In. lia. }
+  split; [|split; [|split]]; intros l Hl; unfold g; try rewrite (Esf l Hl); pose proof (Hx l Hl).
+  - ring.
+  - destruct (soft1_spec t (vfun s l) Ht) as [[H1 E]|[[H1 E]|[H1 E]]]; rewrite E; lra.
+  - destruct (soft1_spec t (vfun s l) Ht) as [[H1 E]|[[H1 E]|[H1 E]]]; rewrite E; try lra; try ring.
+  - destruct (soft1_spec t (vfun s l) Ht) as [[H1 E]|[[H1 E]|[H1 E]]]; rewrite E; lra.
+Qed.
+(* singular value thresholding is firmly non-expansive: two inputs, each with the oracle's decomposition *)
+Theorem svt_list_firmly_nonexpansive m n t k1 U1 s1 V1 M1 k2 U2 s2 V2 M2 : 0 <= t ->
+  (1 <= k1)%nat -> rect m k1 U1 -> length s1 = k1 -> rect k1 n V1 -> ocols m k1 (mfun U1) -> ocols n k1 (fun j l => mfun V1 l j) ->
+  Forall (fun x => 0 <= x) s1 -> (forall i j, (i < m)%nat -> (j < n)%nat -> mfun M1 i j = compose k1 (mfun U1) (vfun s1) (mfun V1) i j) ->
+  (1 <= k2)%nat -> rect m k2 U2 -> length s2 = k2 -> rect k2 n V2 -> ocols m k2 (mfun U2) -> ocols n k2 (fun j l => mfun V2 l j) ->
+  Forall (fun x => 0 <= x) s2 -> (forall i j, (i < m)%nat -> (j < n)%nat -> mfun M2 i j = compose k2 (mfun U2) (vfun s2) (mfun V2) i j) ->
+  let X1 := mfun (svd_thresholding_with Rops U1 s1 V1 t) in let X2 := mfun (svd_thresholding_with Rops U2 s2 V2 t) in
+  frob m n (fun i j => X1 i j - X2 i j) (fun i j => X1 i j - X2 i j)
+  <= frob m n (fun i j => X1 i j - X2 i j) (fun i j => mfun M1 i j - mfun M2 i j).
+Proof.
+  intros Ht Hk1 RU1 Ls1 RV1 HU1 HV1 Hs1 HM1 Hk2 RU2 Ls2 RV2 HU2 HV2 Hs2 HM2 X1 X2.
+  destruct (soft_split_facts t k1 s1 Ht Ls1 Hs1) as (A1 & B1 & C1 & D1).
+  destruct (soft_split_facts t k2 s2 Ht Ls2 Hs2) as (A2 & B2 & C2 & D2).
+  set (sf1 := vfun (soft_thresholding Rops t s1)) in *. set (sf2 := vfun (soft_thresholding Rops t s2)) in *.
+  pose proof (svt_firmly_nonexpansive m n t Ht k1 (mfun U1) (vfun s1) (mfun V1) sf1 (fun l => vfun s1 l - sf1 l)
+                k2 (mfun U2) (vfun s2) (mfun V2) sf2 (fun l => vfun s2 l - sf2 l) HU1 HV1 HU2 HV2 A1 A2 B1 B2 C1 C2 D1 D2) as F.
+  assert (E1 : forall i j, (i < m)%nat -> (j < n)%nat -> X1 i j - X2 i j = compose k1 (mfun U1) sf1 (mfun V1) i j - compose k2 (mfun U2) sf2 (mfun V2) i j).
+  { intros i j Hi Hj. unfold X1, X2. rewrite (svt_entries m n k1 U1 s1 V1 Hk1 RU1 Ls1 RV1 t i j Hi Hj), (svt_entries m n k2 U2 s2 V2 Hk2 RU2 Ls2 RV2 t i j Hi Hj). reflexivity. }
+  rewrite (frob_ext m n _ _ _ _ E1 E1).
+  rewrite (frob_ext m n (fun i j => X1 i j - X2 i j) (fun i j => compose k1 (mfun U1) sf1 (mfun V1) i j - compose k2 (mfun U2) sf2 (mfun V2) i j)
+                        (fun i j => mfun M1 i j - mfun M2 i j) (fun i j => compose k1 (mfun U1) (vfun s1) (mfun V1) i j - compose k2 (mfun U2) (vfun s2) (mfun V2) i j) E1)
+    by (intros i j Hi Hj; rewrite HM1, HM2 by assumption; reflexivity).
+  exact F.
+Qed.
 
 Theorem procrustes_list_feasible (m n k : nat) (U V : list (list R)) :
   (1 <= k)%nat -> rect m k U -> rect k n V -> ocols m k (mfun U) -> ocols n k (fun j l => mfun V l j) ->
